@@ -243,7 +243,8 @@ type QFact struct {
 }
 type Trigger struct {
 	Arr  *Term
-	Base *Term // may be nil (index is Bound itself)
+	Base *Term  // may be nil (index is Bound itself)
+	Coef uint64 // index = Base + Coef*Bound (0 or 1: plain)
 }
 
 // zeroRegion initialises all kinds of region r to zero cells for the kinds of t.
@@ -274,7 +275,7 @@ func (c *Ctx) copyRange(h *Heap, dst, src Ptr, nbytes *Term, elemT types.Type, s
 		inr := c.Ult(c.Sub(j, dst.O), nbytes) // j in [dst, dst+n), wrap-safe single comparison
 		body := c.Eq(c.mkSelectRaw(newInner, j),
 			c.Ite(inr, c.Select(srcInner, c.Add(src.O, c.Sub(j, dst.O))), c.Select(oldInner, j)))
-		facts = append(facts, &QFact{Bound: j, Body: body, Trig: []Trigger{{Arr: newInner}}})
+		facts = append(facts, &QFact{Bound: j, Body: body, Trig: []Trigger{{Arr: newInner, Coef: 1}}})
 		h.K[k] = c.Store(h.K[k], dst.R, newInner)
 	}
 	return facts
@@ -301,7 +302,7 @@ func (c *Ctx) havocRange(h *Heap, r *Term, lo, hi *Term, elemT types.Type, cond 
 			inr = c.And(cond, inr)
 		}
 		body := c.Or(inr, c.Eq(c.Select(newInner, j), c.Select(oldInner, j)))
-		facts = append(facts, &QFact{Bound: j, Body: body, Trig: []Trigger{{Arr: newInner}}})
+		facts = append(facts, &QFact{Bound: j, Body: body, Trig: []Trigger{{Arr: newInner, Coef: 1}}})
 		h.K[k] = c.Store(h.K[k], r, newInner)
 	}
 	return facts
